@@ -40,6 +40,12 @@
 (* The model emits exactly the events the harness records from the real    *)
 (* code (new, seg, sg, complete, flushb, flushe, api); they are fed to     *)
 (* Reasm!Judge.  ImplSatisfiesProp: Judge accepts every one of them.       *)
+(* Constants switch the shapes the code had before its fix: commits on     *)
+(* (WRAP, FinOnlyClosed, ReleaseSaved, CleanSkipFixed) and a proposed      *)
+(* repair (PagesFix).  Every decision of the code is tagged (Tag): the     *)
+(* export prints, besides a hash-selected slice of all complete paths,     *)
+(* one behaviour per distinct set of decisions taken in the last           *)
+(* operation.  Script runs one given scenario instead of all of them.      *)
 (***************************************************************************)
 EXTENDS Reasm, Json
 
